@@ -29,7 +29,7 @@ def plan(tier, seed):
     return [{"id": f"{seed}-{i}", "i": i} for i in range(N[tier])]
 
 
-def make_input(r, kind, solid_only=False, with_cpal=False, want_gap=False, minimal=False, flavour=None):
+def make_input(r, kind, solid_only=False, with_cpal=False, want_gap=False, minimal=False, flavour=None, many_groups=False):
     """-> (font bytes, description)"""
     from vf.drive import inproc
 
@@ -39,9 +39,18 @@ def make_input(r, kind, solid_only=False, with_cpal=False, want_gap=False, minim
             fmt = fmt.replace("glyf", flavour)  # CFF / CFF2 outlines: glue_together reorders glyphs of an OTF
         pal = svggen.FontPalette(r)
         srcs = []
-        if r.random() < 0.5:
-            svgs, _ = svggen.recurrence_set(r, r.randint(2, 3), None, same_vb=True, gradients=kind != "colr0" and not solid_only)
-            srcs = svgs
+        if many_groups or r.random() < 0.5:
+            if many_groups or r.random() < 0.4:
+                # several independent sharing groups of 1-3 glyphs: several multi-glyph SVG documents at odd and even
+                # glyph ids, some of them across id 8 or 16
+                srcs = []
+                sizes = [1, 2, 2, 2, 2] if many_groups else [r.choice([1, 2, 2, 3]) for _ in range(r.randint(3, 5))]
+                for size in sizes:
+                    svgs, _ = svggen.recurrence_set(r, size, None, same_vb=True, gradients=kind != "colr0" and not solid_only, extra_random=False)
+                    srcs.extend(svgs)
+            else:
+                svgs, _ = svggen.recurrence_set(r, r.randint(2, 3), None, same_vb=True, gradients=kind != "colr0" and not solid_only)
+                srcs = svgs
         else:
             plain = kind == "colr0" or solid_only
             srcs = [svggen.svg_source(r, g, None, gradients=not plain, groups=not plain, vb=(0, 0, r.choice([100, 128, 150]), r.choice([100, 128])))[0] for g in range(r.randint(1, 3))]
@@ -92,6 +101,7 @@ def make_input(r, kind, solid_only=False, with_cpal=False, want_gap=False, minim
 
     npal = r.choice([1, 2, 3])
     zero_adv = r.random() < 0.35
+    asc_seed = r.random()
     if minimal:
         # a colour font whose colour glyphs paint their own outlines and that has no other glyph besides .notdef
         # (and, half the time, a space): nothing to spare between .notdef and the first colour glyph
@@ -128,7 +138,8 @@ def make_input(r, kind, solid_only=False, with_cpal=False, want_gap=False, minim
         bio = io.BytesIO()
         font.save(bio)
         return bio.getvalue(), {"kind": "thirdparty-colr1-minimal", "space_glyph": space, "non_colour_glyphs": len(order) - 2, "sequences": [[0x41], [0x42]]}
-    font, shapes, (asc, desc) = c13.mkfont(r, npal, zero_advance=zero_adv)
+    hhea_differs = common.rng(ID, "hhea", npal, zero_adv, asc_seed).random() < 0.5
+    font, shapes, (asc, desc) = c13.mkfont(r, npal, zero_advance=zero_adv, hhea_differs=hhea_differs)
     stats = {}
     gA = {"Format": PF.PaintColrLayers, "Layers": [c13.graph(r, shapes, 2, False, PF, stats) for _ in range(r.randint(1, 2))]}
     gB = {"Format": PF.PaintColrLayers, "Layers": [c13.graph(r, shapes, 2, True, PF, stats) for _ in range(r.randint(1, 2))]}
@@ -141,7 +152,7 @@ def make_input(r, kind, solid_only=False, with_cpal=False, want_gap=False, minim
     addOpenTypeFeaturesFromString(font, fea)
     bio = io.BytesIO()
     font.save(bio)
-    return bio.getvalue(), {"kind": "thirdparty-colr1", "palettes": npal, "zero_advance_colour_glyph": zero_adv, "sequences": [[0x41], [0x42]]}
+    return bio.getvalue(), {"kind": "thirdparty-colr1", "palettes": npal, "zero_advance_colour_glyph": zero_adv, "hhea_differs_from_typo": hhea_differs, "sequences": [[0x41], [0x42]]}
 
 
 def name_keyed_facts(font):
@@ -179,7 +190,7 @@ def run_case(case):
     res = {"counters": {}, "maxes": {}, "violations": [], "tags": [kind] + flags}
     c = res["counters"]
     try:
-        data, desc = make_input(r, kind, solid_only=(kind == "picosvg" and colr_version == 0), with_cpal=with_cpal, want_gap=case["i"] % 8 in (0, 3), minimal=kind == "thirdparty" and case["i"] % 16 in (2, 10), flavour={4: "cff", 7: "cff2", 12: "cff2", 15: "cff"}.get(case["i"] % 16))
+        data, desc = make_input(r, kind, solid_only=(kind == "picosvg" and colr_version == 0), with_cpal=with_cpal, want_gap=case["i"] % 8 in (0, 3), minimal=kind == "thirdparty" and case["i"] % 16 in (2, 10), flavour={4: "cff", 7: "cff2", 12: "cff2", 15: "cff"}.get(case["i"] % 16), many_groups=case["i"] % 12 in (4, 11))
         if desc.get("config", {}).get("color_format", "").startswith("cff"):
             res["tags"].append("cff-outlines")
             c["inputs_with_cff_outlines"] = 1
@@ -244,6 +255,12 @@ def run_case(case):
             c["coloured_notdef_bitmaps_checked"] = 1
             if n0 != 1:
                 res["violations"].append(dict(ctx, what=f"the coloured .notdef has {n0} bitmaps in the output (COLR and SVG paint it)"))
+        if "SVG " in after and "COLR" in before:
+            for _doc, g0, g1 in after["SVG "].docList:
+                if g1 > g0:
+                    c["multi_glyph_svg_docs"] = c.get("multi_glyph_svg_docs", 0) + 1
+                    if g1 - g0 < 4 and g0 // 8 != g1 // 8:
+                        c["small_svg_docs_across_a_multiple_of_8"] = c.get("small_svg_docs_across_a_multiple_of_8", 0) + 1
         missing = want - set(after.keys())
         if missing:
             res["violations"].append(dict(ctx, what=f"tables missing from the output: {sorted(missing)}"))
